@@ -385,15 +385,15 @@ inproc_accept_clients(inproc_ep *srv)
 				if (cpipe != NULL) {
 					nni_pipe_close(cpipe->pipe);
 					nni_pipe_rele(cpipe->pipe);
-				} else {
-					nni_refcnt_rele(&pair->ref);
 				}
 				if (spipe != NULL) {
 					nni_pipe_close(spipe->pipe);
 					nni_pipe_rele(spipe->pipe);
-				} else {
-					nni_refcnt_rele(&pair->ref);
 				}
+				// The pair is not attached to either pipe
+				// yet, so both references are still ours.
+				nni_refcnt_rele(&pair->ref);
+				nni_refcnt_rele(&pair->ref);
 				inproc_conn_finish(caio, rv, cli, NULL);
 				inproc_conn_finish(saio, rv, srv, NULL);
 				continue;
